@@ -1132,7 +1132,9 @@ package fzf
 // Streaming filter mode (fzf -f QUERY without sorting): for every record read, the line is printed iff the
 // item satisfies the query, and what is printed is Item.AsString - the original line - not the display text.
 //@ func Run closure @"if chunkList.trans(&item, runes)"
-//@ property C07 C01
+//@ property C07 C01 C05
+// (every record is matched as a fresh item: no --nth memo of another line comes along)
+//@ assert @"if chunkList.trans(&item, runes)" item.transformed == nil && item.origText == nil
 //@ requires chunkList != nil && pattern != nil && opts != nil && chunkList.trans != nil && opts.Printer != nil
 //@ requires len(pattern.nth) == 0 && pattern.procFun != nil && (pattern.fuzzy ==> pattern.fuzzyAlgo != nil)
 //@ modifies found
